@@ -4,7 +4,8 @@ CONSTANTS
  MaxItems = 2
  MaxTicket = 8
  MaxStale = 1
- AllowRemove = TRUE
+ MaxExh = 1
+ AllowRemove = FALSE
  Dev = {}
-INVARIANTS TypeOK NoLostWakeup NoStreamLost ReadyHasSignal FairBoundTight
+INVARIANTS TypeOK NoLostWakeup NoStreamLost ReadyHasSignal FairBoundTight LiveInHeap YieldBound
 CHECK_DEADLOCK FALSE
